@@ -175,7 +175,7 @@ def x_Assign(eng, node, st):
             if v.ty.kind in ("seq", "map") and v.const is None:
                 key = alias_key(eng, node.value, s)
                 if key is not None and key in s.heap:
-                    v = SV(v.ty, v.t, const=("heapalias", key, s.heap[key]))
+                    v = SV(v.ty, v.t, const=("heapalias", key, s.heap[key], node.value))
             return go(s, v)
         return lift(eng.ev(node.value, st), go2)
     return lift(eng.ev(node.value, st), go)
